@@ -156,12 +156,25 @@ def enc_twice_jobs():
     return jobs
 
 
+def enc_big_jobs():
+    """frames at the top of the size range (sizes/tiling only, contents nondeterministic but not compared byte by byte)"""
+    jobs = []
+    shapes = [(enc_shape([1400], maxb=1500), "quick"), (enc_shape([3000], maxb=1500), "quick"), (enc_shape([700, 700, 700], maxb=1500), "quick"),
+              (enc_shape([1476], maxb=1500), "thorough"), (enc_shape([1477], maxb=1500), "thorough"), (enc_shape([2952], maxb=1500), "thorough"), (enc_shape([2953], maxb=1500), "thorough"),
+              (enc_shape([100, 1400], maxb=1500, minb=64), "thorough"), (enc_shape([4000], maxb=1000), "thorough"), (enc_shape([8000], maxb=9000), "thorough")]
+    for d, tier in shapes:
+        jobs.append(Job("enc.cpp", "h_enc_big", defs=d, unwind=12, tier=tier, in_max=64, mem_gb=6,
+                        sym="payload bytes (nondeterministic heap contents; one symbolic index compared), timestamps, version, device/stream id, counter start",
+                        outside="frames beyond 9000 bytes (array copies of n bytes cost CBMC O(n) recursion depth and superlinear memory: 8000 bytes take 80 s, 20000 exhaust 11 GB; the 16-bit boundary at 65536+ is out of reach); byte-by-byte comparison of whole payloads (one symbolic sampled index of the first packet instead); message header fields other than the declared length"))
+    return jobs
+
+
 ENC_ASSUME = COMMON_ASSUME + [
     "batch shape (packet count, payload lengths, message types, min/max frame size, API overload) is enumerated concretely; everything else is symbolic",
     "expected frames come from an independent protocol model written in the harness (harness/enc.cpp buildModel), not from the library",
     "the encoder's counter start value is installed through the ASAM_CMP_VERIF friend hook (any 16-bit value)",
 ]
-PROPS["C07"] = {"jobs": lambda: enc_jobs(["h_enc_model"]) + enc_twice_jobs(), "assumptions": ENC_ASSUME,
+PROPS["C07"] = {"jobs": lambda: enc_jobs(["h_enc_model"]) + enc_twice_jobs() + enc_big_jobs(), "assumptions": ENC_ASSUME,
                 "level": "bounded symbolic model checking of Encoder::encode against an independent frame model, all contents symbolic per shape"}
 PROPS["C08"] = {"jobs": lambda: enc_jobs(["h_enc_model"]) + enc_twice_jobs(), "assumptions": ENC_ASSUME,
                 "level": "bounded symbolic model checking of Encoder::encode against an independent segmentation/aggregation model"}
